@@ -927,3 +927,60 @@ def c11_oracle(case, r):
             seen.add(sig)
             out.append((sig, text))
     return out
+
+
+# ---------------------------------------------------------------------------------------------- C05
+def strip_attachment_prefix(nf):
+    """Report normal form with the schedule-dependent NNNN_ uniquifier of attachment file names removed (C06 constrains it)."""
+    import copy
+    import re
+    nf = copy.deepcopy(nf)
+
+    def fix_result(res):
+        if not res:
+            return
+        for st in res["steps"]:
+            for l in st["logs"]:
+                if l[0] == "attachment":
+                    l[2] = re.sub(r"^attachments/\d+_", "attachments/", l[2])
+
+    def go(s):
+        fix_result(s.get("setup"))
+        fix_result(s.get("teardown"))
+        for t in s["tests"]:
+            fix_result(t)
+        for sub in s["suites"]:
+            go(sub)
+    fix_result(nf.get("session_setup"))
+    fix_result(nf.get("session_teardown"))
+    for s in nf["suites"]:
+        go(s)
+    nf.pop("nb_threads", None)
+    return nf
+
+
+def first_difference(a, b, path="report"):
+    if type(a) != type(b):
+        return "%s: %r vs %r" % (path, a, b)
+    if isinstance(a, dict):
+        for k in a:
+            if k not in b:
+                return "%s.%s missing" % (path, k)
+            d = first_difference(a[k], b[k], path + "." + str(k))
+            if d:
+                return d
+        return None
+    if isinstance(a, list):
+        if len(a) != len(b):
+            names = lambda l: [x.get("name") if isinstance(x, dict) else x for x in l][:8]
+            return "%s: %d vs %d items (%s vs %s)" % (path, len(a), len(b), names(a), names(b))
+        if a and all(isinstance(x, dict) and "name" in x for x in a + b):
+            na, nb = [x["name"] for x in a], [x["name"] for x in b]
+            if na != nb:
+                return "%s: ORDER %s vs %s" % (path, na[:10], nb[:10])
+        for i, (x, y) in enumerate(zip(a, b)):
+            d = first_difference(x, y, "%s[%s]" % (path, (x.get("name") if isinstance(x, dict) and "name" in x else i)))
+            if d:
+                return d
+        return None
+    return None if a == b else "%s: %r vs %r" % (path, a, b)
